@@ -66,6 +66,9 @@ type FileCase struct {
 	Lost                       uint8
 	RF, PE                     Blob
 	Recs                       []Rec
+	Many                       int    `json:"many,omitempty"`  // that many further records with a one-octet payload (a file with thousands of records)
+	Prev                       string `json:"prev,omitempty"`  // what happened to the file name before: "" nothing | longer | shorter (a file of that size is stored under it) | fail (an Encoding into a missing directory was attempted just before)
+	Alias                      bool   `json:"alias,omitempty"` // routeing filter and private extension are windows on one array (the filter has spare capacity that reaches into the extension)
 }
 
 func genBlob(t *rapid.T, name string, allowHuge bool) Blob {
@@ -142,7 +145,24 @@ func genFile(t *rapid.T) FileCase {
 		r.Payload = genBlob(t, "payload", huge && maxRecs <= 6)
 		c.Recs = append(c.Recs, r)
 	}
+	if rapid.IntRange(0, h.Scale(60, 25)).Draw(t, "thousands") == 0 {
+		c.Many = rapid.SampledFrom([]int{4095, 4096, 4097, 5000, 10000}).Draw(t, "many")
+	}
+	c.Prev = rapid.SampledFrom([]string{"", "", "", "longer", "shorter", "fail"}).Draw(t, "prev")
+	c.Alias = rapid.IntRange(0, 3).Draw(t, "alias") == 0
 	return c
+}
+
+// all records of the case, the generated ones and the thousands of one-octet ones
+func (c FileCase) recs() []Rec {
+	if c.Many == 0 {
+		return c.Recs
+	}
+	out := append([]Rec{}, c.Recs...)
+	for i := 0; i < c.Many; i++ {
+		out = append(out, Rec{Rel: uint8(i % 7), Ver: uint8(i % 32), Fmt: uint8(1 + i%4), TsN: uint8(i % 32), Payload: Blob{N: 1, Seed: uint64(i + 1)}})
+	}
+	return out
 }
 
 func (c FileCase) headerLen() int {
@@ -162,8 +182,15 @@ func (c FileCase) build() cdrFile.CDRFile {
 		return cdrFile.CdrHdrTimeStamp{MonthLocal: t.Mo, DateLocal: t.D, HourLocal: t.H, MinuteLocal: t.Mi,
 			SignOfTheLocalTimeDifferentialFromUtc: t.S, HourDeviation: t.HD, MinuteDeviation: t.MD}
 	}
+	rfb, peb := c.RF.Bytes(), c.PE.Bytes()
+	if c.Alias && !noAlias {
+		// one vendor blob cut in two: the filter's spare capacity reaches into the extension (and beyond)
+		blob := make([]byte, 0, len(rfb)+len(peb)+64)
+		blob = append(append(blob, rfb...), peb...)
+		rfb, peb = blob[:len(rfb)], blob[len(rfb):len(rfb)+len(peb)]
+	}
 	total := c.headerLen()
-	for _, r := range c.Recs {
+	for _, r := range c.recs() {
 		total += 4 + r.Payload.Len()
 		if r.Rel == 7 {
 			total++
@@ -174,14 +201,14 @@ func (c FileCase) build() cdrFile.CDRFile {
 		HighReleaseIdentifier: c.HiRel, HighVersionIdentifier: c.HiVer,
 		LowReleaseIdentifier: c.LoRel, LowVersionIdentifier: c.LoVer,
 		FileOpeningTimestamp: conv(c.Open), TimestampWhenLastCdrWasAppendedToFIle: conv(c.Last),
-		NumberOfCdrsInFile: uint32(len(c.Recs)), FileSequenceNumber: c.Seq,
+		NumberOfCdrsInFile: uint32(len(c.recs())), FileSequenceNumber: c.Seq,
 		FileClosureTriggerReason:         cdrFile.FileClosureTriggerReasonType(c.Reason),
 		IpAddressOfNodeThatGeneratedFile: c.IP, LostCdrIndicator: c.Lost,
-		LengthOfCdrRouteingFilter: uint16(c.RF.Len()), CDRRouteingFilter: c.RF.Bytes(),
-		LengthOfPrivateExtension: uint16(c.PE.Len()), PrivateExtension: c.PE.Bytes(),
+		LengthOfCdrRouteingFilter: uint16(c.RF.Len()), CDRRouteingFilter: rfb,
+		LengthOfPrivateExtension: uint16(c.PE.Len()), PrivateExtension: peb,
 		HighReleaseIdentifierExtension: c.HiExt, LowReleaseIdentifierExtension: c.LoExt,
 	}
-	for _, r := range c.Recs {
+	for _, r := range c.recs() {
 		p := r.Payload.Bytes()
 		f.CdrList = append(f.CdrList, cdrFile.CDR{
 			Hdr: cdrFile.CdrHeader{CdrLength: uint16(len(p)), ReleaseIdentifier: cdrFile.ReleaseIdentifierType(r.Rel),
@@ -205,7 +232,7 @@ func (c FileCase) classify(v *h.Verdict) {
 	} else {
 		v.Label("noExt")
 	}
-	if len(c.Recs) == 0 {
+	if len(c.recs()) == 0 {
 		v.NT("zeroRecords")
 	}
 	if c.RF.Len() >= 256 || c.PE.Len() >= 256 {
@@ -215,7 +242,7 @@ func (c FileCase) classify(v *h.Verdict) {
 		v.NT("variableParts>64KiB")
 	}
 	has7, hasNot7 := false, false
-	for _, r := range c.Recs {
+	for _, r := range c.recs() {
 		if r.Payload.Len() == 0 {
 			v.NT("emptyPayload")
 		}
@@ -231,8 +258,17 @@ func (c FileCase) classify(v *h.Verdict) {
 	if has7 && hasNot7 {
 		v.NT("mixedRecordExt")
 	}
-	if len(c.Recs) > 6 {
+	if len(c.recs()) > 6 {
 		v.NT("manyRecords")
+	}
+	if c.Many > 4096 {
+		v.NT("records>4096")
+	}
+	if c.Prev != "" {
+		v.Label("name-used-before:" + c.Prev)
+	}
+	if c.Alias && c.RF.Len() > 0 && c.PE.Len() > 0 {
+		v.Label("filter-and-extension-share-an-array")
 	}
 }
 
@@ -248,6 +284,37 @@ func (c FileCase) sigFlags() string {
 }
 
 var tmpSeq int
+
+// noAlias makes build() return separately allocated slices (the expected value of a comparison)
+var noAlias bool
+
+func (c FileCase) expected() cdrFile.CDRFile {
+	noAlias = true
+	defer func() { noAlias = false }()
+	return c.build()
+}
+
+// before prepares what the case says happened to the file name earlier.
+func (c FileCase) before(name string) {
+	switch c.Prev {
+	case "longer":
+		l := c
+		l.Alias, l.Prev, l.Many = false, "", 0
+		l.Recs = append(append([]Rec{}, c.Recs...), Rec{Rel: 3, Fmt: 1, Payload: Blob{N: 5000, Seed: 77}}, Rec{Rel: 7, Ext: 9, Fmt: 2, Payload: Blob{N: 100, Seed: 78}})
+		f := l.build()
+		h.Safely(func() { f.Encoding(name) })
+		if c.Many > 0 {
+			_ = os.WriteFile(name, make([]byte, 200000), 0o600)
+		}
+	case "shorter":
+		_ = os.WriteFile(name, []byte{1, 2, 3, 4, 5, 6, 7, 8, 9, 10}, 0o600)
+	case "fail":
+		l := c
+		l.Alias, l.Prev, l.Many = false, "", 0
+		f := l.build()
+		h.Safely(func() { f.Encoding(filepath.Join(h.WorkDir(), "no-such-directory", "x.bin")) })
+	}
+}
 
 func tmpName() string {
 	tmpSeq++
@@ -297,9 +364,14 @@ func judgeC14(c FileCase) *h.Verdict {
 	in := c.build()
 	name := tmpName()
 	defer os.Remove(name)
+	c.before(name)
 	if p, val, st := h.Safely(func() { in.Encoding(name) }); p {
 		return v.Failf("encode-panic/"+h.PanicClass(val)+c.sigFlags(), "Encoding panicked: %v\n%s", val, st)
 	}
+	if field, ok := equalFiles(c.expected(), in); !ok {
+		return v.Failf("input-modified/"+field, "Encoding changed the value it was given (%s)", field)
+	}
+	in = c.expected()
 	var out cdrFile.CDRFile
 	if p, val, st := h.Safely(func() { out.Decoding(name) }); p {
 		return v.Failf("decode-panic/"+h.PanicClass(val)+c.sigFlags(), "Decoding panicked: %v\n%s", val, st)
@@ -319,6 +391,7 @@ func judgeC15(c FileCase) *h.Verdict {
 	in := c.build()
 	name := tmpName()
 	defer os.Remove(name)
+	c.before(name)
 	if p, val, st := h.Safely(func() { in.Encoding(name) }); p {
 		return v.Failf("encode-panic/"+h.PanicClass(val)+c.sigFlags(), "Encoding panicked: %v\n%s", val, st)
 	}
@@ -347,7 +420,7 @@ func judgeC15(c FileCase) *h.Verdict {
 		exp("LowRelVer", 9, []byte{c.LoRel<<5 | c.LoVer}) &&
 		exp("OpenTs", 10, u32(pack(c.Open))) &&
 		exp("LastTs", 14, u32(pack(c.Last))) &&
-		exp("NumberOfCdrs", 18, u32(uint32(len(c.Recs)))) &&
+		exp("NumberOfCdrs", 18, u32(uint32(len(c.recs())))) &&
 		exp("FileSeq", 22, u32(c.Seq)) &&
 		exp("ClosureReason", 26, []byte{c.Reason}) &&
 		exp("NodeIP", 27, c.IP[:]) &&
@@ -372,7 +445,7 @@ func judgeC15(c FileCase) *h.Verdict {
 		}
 		p++
 	}
-	for _, r := range c.Recs {
+	for _, r := range c.recs() {
 		pl := r.Payload.Bytes()
 		if !exp("RecLength", p, u16(uint16(len(pl)))) || !exp("RecRelVer", p+2, []byte{r.Rel<<5 | r.Ver}) ||
 			!exp("RecFmtTs", p+3, []byte{r.Fmt<<5 | r.TsN}) {
@@ -415,10 +488,10 @@ func judgeC15(c FileCase) *h.Verdict {
 		chk("LoRel", s.LoRel, c.LoRel) && chk("LoVer", s.LoVer, c.LoVer) && chk("Open", s.Open, c.Open) && chk("Last", s.Last, c.Last) &&
 		chk("Seq", s.Seq, c.Seq) && chk("Reason", s.Reason, c.Reason) && chk("IP", s.IP, c.IP) && chk("Lost", s.Lost, c.Lost) &&
 		chk("RF", nz(s.RF), rf) && chk("PE", nz(s.PE), pe) && chk("HiExt", s.HiExt, c.HiExt) && chk("LoExt", s.LoExt, c.LoExt) &&
-		chk("NRecs", len(s.Recs), len(c.Recs))) {
+		chk("NRecs", len(s.Recs), len(c.recs()))) {
 		return v
 	}
-	for i, r := range c.Recs {
+	for i, r := range c.recs() {
 		g := s.Recs[i]
 		if !(chk("RecRel", g.Rel, r.Rel) && chk("RecVer", g.Ver, r.Ver) && chk("RecFmt", g.Fmt, r.Fmt) && chk("RecTs", g.TsN, r.TsN) &&
 			chk("RecExt", g.Ext, r.Ext) && chk("RecPayload", nz(g.Payload), r.Payload.Bytes())) {
